@@ -131,13 +131,23 @@ def _traffic(ctx):
             c07._impl(c07.gen_sequence(rng, pool))
     except Exception as e:  # noqa
         ctx.notes.append(f"traffic before the second look could not be produced: {type(e).__name__}")
-    # clients of both API classes come and go (they read the port table for their default port)
+    # clients of the API classes come and go (they may read the port table for their default port), with every combination of the
+    # optional arguments their constructors offer; if one of those can take a device type, with every device type - twice
     try:
+        import inspect
         import aioswitcher.api as A
-        for _ in range(3):
-            for cls in (A.SwitcherType1Api, A.SwitcherType2Api):
-                cls("127.0.0.1", "a123bc", "18")
-                cls("127.0.0.1", "a123bc", "18", 12345)
+        import aioswitcher.device as dd
+        for cls in (A.SwitcherType1Api, A.SwitcherType2Api, A.SwitcherApi):
+            params = list(inspect.signature(cls.__init__).parameters.values())[1:]
+            required = [p for p in params if p.default is inspect.Parameter.empty]
+            optional = [p for p in params if p.default is not inspect.Parameter.empty]
+            base = ["127.0.0.1", "a123bc", "18"][:len(required)]
+            variants = [{}] + [{p.name: v} for p in optional for v in ([12345] if "port" in p.name else list(dd.DeviceType) + list(dd.DeviceType))]
+            for kw in variants:
+                try:
+                    cls(*base, **kw)
+                except Exception:  # noqa
+                    pass
     except Exception as e:  # noqa
         ctx.notes.append(f"API clients could not be constructed before the second look: {type(e).__name__}")
     # datagrams that pass the gate and then fail somewhere inside the decoding (unknown direction, undecodable name, unknown enum
